@@ -59,7 +59,10 @@ func runC03(seed int64, tier string, sc *Script) map[string]any {
 	evals := 0
 	for ci := 0; ci < cases; ci++ {
 		u := GenDAG(rng, GenCfg{Blobs: 1 + rng.Intn(4), Manifests: 2 + rng.Intn(10), Subjects: true, Indexes: true,
-			Foreign: rng.Intn(3) == 0, EmptyBlob: rng.Intn(2) == 0})
+			Foreign: rng.Intn(3) == 0, EmptyBlob: rng.Intn(2) == 0,
+			// (memory sources: now and then the bytes of a manifest are also listed as an opaque
+			// blob - two nodes for a destination that tells media types apart)
+			Alias: ci%9 == 0})
 		// (a remote repository knows one kind of predecessor: the referrers of a subject,
 		// listed page by page through the Referrers API or read from the referrers tag)
 		srcKind := []string{"memory", "oci", "oci-reopen-dir", "oci-reopen-fs", "oci-reopen-tar", "file", "remote-api", "remote-tags", "file-cas"}[ci%9]
